@@ -1,38 +1,182 @@
 //! C08 Descriptive statistics equal their textbook definitions.
 use crate::rt::inp;
-use crate::{harness, vassert, vassume, vclose, vle, vbits};
+use crate::{harness, vassert, vassume, vbits, vclose, vle};
+use compute::linalg::Vector;
 use compute::statistics::*;
 
 fn ref_mean(d: &[f64]) -> f64 {
     let mut s = 0.0;
-    for x in d { s += *x; }
+    for x in d {
+        s += *x;
+    }
     s / d.len() as f64
 }
-fn ref_var(d: &[f64], ddof: usize) -> f64 {
-    let m = ref_mean(d);
+fn ref_cov(x: &[f64], y: &[f64], ddof: usize) -> f64 {
+    let (mx, my) = (ref_mean(x), ref_mean(y));
     let mut s = 0.0;
-    for x in d { s += (*x - m) * (*x - m); }
-    s / (d.len() - ddof) as f64
+    let mut i = 0;
+    while i < x.len() {
+        s += (x[i] - mx) * (y[i] - my);
+        i += 1;
+    }
+    s / (x.len() - ddof) as f64
 }
 fn scale(d: &[f64]) -> f64 {
     let mut s: f64 = 1.0;
-    for x in d { s = s.max(x.abs()); }
+    for x in d {
+        s = s.max(x.abs());
+    }
     s
 }
 
+// @bound c08_moments_: data length N (instance), every real data vector
+// @claim c08_moments_: mean, welford_mean, var, sample_var, std, sample_std equal the textbook definitions (R)
 fn moments<const N: usize>() {
     let d: [f64; N] = inp::arr(0);
-    let n = N as f64;
     let sc = scale(&d);
-    let tol = 16.0 * n * f64::EPSILON * sc;
+    let tol = 1e-9 * sc;
     vclose!(mean(&d), ref_mean(&d), tol, "mean n={}", N);
     vclose!(welford_mean(&d), ref_mean(&d), tol, "welford_mean n={}", N);
-    vclose!(var(&d), ref_var(&d, 0), tol * sc, "var n={}", N);
+    vclose!(var(&d), ref_cov(&d, &d, 0), tol * sc, "var n={}", N);
+    let s = std(&d);
+    vassert!(s >= 0.0, "std negative");
+    vclose!(s * s, ref_cov(&d, &d, 0), tol * sc, "std^2 n={}", N);
     if N >= 2 {
-        vclose!(sample_var(&d), ref_var(&d, 1), tol * sc, "sample_var n={}", N);
+        vclose!(sample_var(&d), ref_cov(&d, &d, 1), tol * sc, "sample_var n={}", N);
+        let s = sample_std(&d);
+        vassert!(s >= 0.0, "sample_std negative");
+        vclose!(s * s, ref_cov(&d, &d, 1), tol * sc, "sample_std^2 n={}", N);
     }
+    // method forms on Vector are the same functions
+    let v = Vector::new(d.to_vec());
+    vclose!(v.mean(), ref_mean(&d), tol, "Vector::mean");
+    vclose!(v.var(), ref_cov(&d, &d, 0), tol * sc, "Vector::var");
 }
-
 harness!(name=c08_moments_1, prop=C08, mode=R, kind=normal, tier=quick, unwind=3, { moments::<1>() });
 harness!(name=c08_moments_2, prop=C08, mode=R, kind=normal, tier=quick, unwind=4, { moments::<2>() });
+harness!(name=c08_moments_3, prop=C08, mode=R, kind=normal, tier=quick, unwind=5, { moments::<3>() });
 harness!(name=c08_moments_4, prop=C08, mode=R, kind=normal, tier=quick, unwind=6, { moments::<4>() });
+harness!(name=c08_moments_5, prop=C08, mode=R, kind=normal, tier=quick, unwind=7, { moments::<5>() });
+harness!(name=c08_moments_6, prop=C08, mode=R, kind=normal, tier=quick, unwind=8, { moments::<6>() });
+harness!(name=c08_moments_8, prop=C08, mode=R, kind=normal, tier=thorough, unwind=10, { moments::<8>() });
+
+// @bound c08_cov_: paired data of length N (instance), every real x, y
+// @claim c08_cov_: the four covariance functions equal the textbook population/sample covariance (R)
+fn cov<const N: usize>(which: u8) {
+    let x: [f64; N] = inp::arr(0);
+    let y: [f64; N] = inp::arr(100);
+    let sc = scale(&x) * scale(&y);
+    let tol = 1e-9 * sc;
+    match which {
+        0 => vclose!(covariance(&x, &y), ref_cov(&x, &y, 0), tol, "covariance n={}", N),
+        1 => vclose!(sample_covariance(&x, &y), ref_cov(&x, &y, 1), tol, "sample_covariance n={}", N),
+        2 => vclose!(sample_covariance_onepass(&x, &y), ref_cov(&x, &y, 1), tol, "sample_covariance_onepass n={}", N),
+        _ => vclose!(sample_covariance_online(&x, &y), ref_cov(&x, &y, 1), tol, "sample_covariance_online n={}", N),
+    }
+}
+harness!(name=c08_cov_pop_1, prop=C08, mode=R, kind=normal, tier=quick, unwind=3, { cov::<1>(0) });
+harness!(name=c08_cov_pop_2, prop=C08, mode=R, kind=normal, tier=quick, unwind=4, { cov::<2>(0) });
+harness!(name=c08_cov_pop_3, prop=C08, mode=R, kind=normal, tier=quick, unwind=5, { cov::<3>(0) });
+harness!(name=c08_cov_pop_5, prop=C08, mode=R, kind=normal, tier=quick, unwind=7, { cov::<5>(0) });
+harness!(name=c08_cov_sample_2, prop=C08, mode=R, kind=normal, tier=quick, unwind=4, { cov::<2>(1) });
+harness!(name=c08_cov_sample_3, prop=C08, mode=R, kind=normal, tier=quick, unwind=5, { cov::<3>(1) });
+harness!(name=c08_cov_sample_5, prop=C08, mode=R, kind=normal, tier=quick, unwind=7, { cov::<5>(1) });
+harness!(name=c08_cov_onepass_2, prop=C08, mode=R, kind=normal, tier=quick, unwind=4, { cov::<2>(2) });
+harness!(name=c08_cov_onepass_3, prop=C08, mode=R, kind=normal, tier=quick, unwind=5, { cov::<3>(2) });
+harness!(name=c08_cov_onepass_5, prop=C08, mode=R, kind=normal, tier=quick, unwind=7, { cov::<5>(2) });
+harness!(name=c08_cov_online_2, prop=C08, mode=R, kind=normal, tier=quick, unwind=4, { cov::<2>(3) });
+harness!(name=c08_cov_online_3, prop=C08, mode=R, kind=normal, tier=quick, unwind=5, { cov::<3>(3) });
+harness!(name=c08_cov_online_5, prop=C08, mode=R, kind=normal, tier=quick, unwind=7, { cov::<5>(3) });
+harness!(name=c08_cov_pop_8, prop=C08, mode=R, kind=normal, tier=thorough, unwind=10, { cov::<8>(0) });
+harness!(name=c08_cov_sample_8, prop=C08, mode=R, kind=normal, tier=thorough, unwind=10, { cov::<8>(1) });
+harness!(name=c08_cov_onepass_8, prop=C08, mode=R, kind=normal, tier=thorough, unwind=10, { cov::<8>(2) });
+harness!(name=c08_cov_online_8, prop=C08, mode=R, kind=normal, tier=thorough, unwind=10, { cov::<8>(3) });
+
+// @bound c08_relations_: length N, two-run relations with symbolic shift c and scales a, b
+// @claim c08_relations_: var(x+c)=var(x), var(ax)=a^2 var(x), cov(ax,by)=ab cov(x,y), cov(x+c,y)=cov(x,y) (R)
+fn relations<const N: usize>() {
+    let x: [f64; N] = inp::arr(0);
+    let y: [f64; N] = inp::arr(100);
+    let (a, b, c) = (inp::f64(200), inp::f64(201), inp::f64(202));
+    let mut xs = [0.0; N];
+    let mut xa = [0.0; N];
+    let mut yb = [0.0; N];
+    let mut i = 0;
+    while i < N {
+        xs[i] = x[i] + c;
+        xa[i] = a * x[i];
+        yb[i] = b * y[i];
+        i += 1;
+    }
+    let sc = (scale(&x) + c.abs()) * (1.0 + a.abs()) * scale(&y) * (1.0 + b.abs()) * (scale(&x) + c.abs());
+    let tol = 1e-7 * sc;
+    vclose!(var(&xs), var(&x), tol, "var shift");
+    vclose!(var(&xa), a * a * var(&x), tol, "var scale");
+    vclose!(sample_var(&xs), sample_var(&x), tol, "sample_var shift");
+    vclose!(covariance(&xs, &y), covariance(&x, &y), tol, "cov shift");
+    vclose!(covariance(&xa, &yb), a * b * covariance(&x, &y), tol, "cov bilinear");
+    vclose!(sample_covariance(&xs, &y), sample_covariance(&x, &y), tol, "sample_cov shift");
+}
+harness!(name=c08_relations_2, prop=C08, mode=R, kind=normal, tier=quick, unwind=4, { relations::<2>() });
+harness!(name=c08_relations_3, prop=C08, mode=R, kind=normal, tier=quick, unwind=5, { relations::<3>() });
+harness!(name=c08_relations_4, prop=C08, mode=R, kind=normal, tier=thorough, unwind=6, { relations::<4>() });
+
+// @bound c08_order_: length N, every finite f64 data vector (bit-precise, incl. ±0, subnormals, ties)
+// @claim c08_order_: min/max are attained and bound every element; argmin/argmax are the first index attaining them (R; exact here: the code only compares and moves finite floats, and IEEE comparison of finite values is real comparison)
+// @assume c08_order_: data finite (the property quantifies over finite data; with +inf present argmin's f64::MAX seed is not replaced)
+fn order<const N: usize>() {
+    let d: [f64; N] = inp::arr(0);
+    let mut i = 0;
+    while i < N {
+        vassume!(d[i].is_finite());
+        i += 1;
+    }
+    let (mn, mx, amn, amx) = (min(&d), max(&d), argmin(&d), argmax(&d));
+    vassert!(amn < N && amx < N, "arg index out of range");
+    let mut hit_mn = false;
+    let mut hit_mx = false;
+    let mut i = 0;
+    while i < N {
+        vassert!(mn <= d[i], "min {} > d[{}]", mn, i);
+        vassert!(mx >= d[i], "max {} < d[{}]", mx, i);
+        hit_mn |= mn == d[i];
+        hit_mx |= mx == d[i];
+        vassert!(d[amn] <= d[i], "argmin {} not minimal vs {}", amn, i);
+        vassert!(d[amx] >= d[i], "argmax {} not maximal vs {}", amx, i);
+        if i < amn {
+            vassert!(d[i] > d[amn], "argmin {} is not the first occurrence ({})", amn, i);
+        }
+        if i < amx {
+            vassert!(d[i] < d[amx], "argmax {} is not the first occurrence ({})", amx, i);
+        }
+        i += 1;
+    }
+    vassert!(hit_mn && hit_mx, "min/max not attained");
+    let v = Vector::new(d.to_vec());
+    vassert!(v.argmin() == amn && v.argmax() == amx, "Vector::argmin/argmax differ");
+    vassert!(v.min() == mn && v.max() == mx, "Vector::min/max differ");
+}
+harness!(name=c08_order_1, prop=C08, mode=R, kind=normal, tier=quick, unwind=3, { order::<1>() });
+harness!(name=c08_order_2, prop=C08, mode=R, kind=normal, tier=quick, unwind=4, { order::<2>() });
+harness!(name=c08_order_3, prop=C08, mode=R, kind=normal, tier=quick, unwind=5, { order::<3>() });
+harness!(name=c08_order_4, prop=C08, mode=R, kind=normal, tier=quick, unwind=6, { order::<4>() });
+harness!(name=c08_order_6, prop=C08, mode=R, kind=normal, tier=quick, unwind=8, { order::<6>() });
+harness!(name=c08_order_9, prop=C08, mode=R, kind=normal, tier=thorough, unwind=11, { order::<9>() });
+
+// @bound c08_hist_: N bin edges (instance), symbolic and not necessarily uniform
+// @claim c08_hist_: centre i equals (e[i]+e[i+1])/2 and there are N-1 centres (R)
+fn hist<const N: usize>() {
+    let e: [f64; N] = inp::arr(0);
+    let c = hist_bin_centers(&e);
+    vassert!(c.len() == N - 1, "hist_bin_centers length {} for {} edges", c.len(), N);
+    let tol = 1e-9 * scale(&e);
+    let mut i = 0;
+    while i + 1 < N {
+        vclose!(c[i], (e[i] + e[i + 1]) / 2.0, tol, "bin centre {}", i);
+        i += 1;
+    }
+}
+harness!(name=c08_hist_2, prop=C08, mode=R, kind=normal, tier=quick, unwind=4, { hist::<2>() });
+harness!(name=c08_hist_3, prop=C08, mode=R, kind=normal, tier=quick, unwind=5, { hist::<3>() });
+harness!(name=c08_hist_4, prop=C08, mode=R, kind=normal, tier=quick, unwind=6, { hist::<4>() });
+harness!(name=c08_hist_6, prop=C08, mode=R, kind=normal, tier=thorough, unwind=8, { hist::<6>() });
